@@ -599,7 +599,7 @@ func handedBytesVerify(format string, envBytes, handed []byte, chain []*x509.Cer
 
 // genLocalSigner: NewLocalSigner(certs, key) over every kind of leaf key x every kind of private key
 func genLocalSigner(r *Runner) {
-	leafKeys := []string{"ec256-0", "ec384-0", "ec521-0", "rsa2048-0", "rsa3072-0", "rsa4096-0", "rsa1024-0", "rsa2056-0", "rsa2560-0", "rsa3200-0", "rsa5120-0", "ec224-0", "ed-0"}
+	leafKeys := []string{"ec256-0", "ec384-0", "ec521-0", "rsa2048-0", "rsa3072-0", "rsa4096-0", "rsa1024-0", "rsa2056-0", "rsa2560-0", "rsa3200-0", "rsa5120-0", "rsa2000-0", "rsa2040-0", "rsa3064-0", "rsa4088-0", "rsa4104-0", "ec224-0", "ed-0"}
 	idx := 0
 	for _, lk := range leafKeys {
 		for n := 0; n <= 3; n++ {
